@@ -53,7 +53,7 @@ theorem prevote_event_inert (w : World) (q : VoteReq) (hd : w.dead = false) :
   have h := prevote_inert w.v q none none
   simp only [stepEvent, hd, planOf, stepPlan]
   simp only [exec_none, preVotePlan, mkRes, Plan.writes, List.map_nil, applyAll, List.foldl_nil]
-  simp [hd.symm]
+  simp [hd.symm, fsmNext, fsmDataAfter, fsmAdvance]
   cases w; simp_all
 
 /-- a pre-vote is granted only to a candidate at least as up to date as the server's last entry and,
